@@ -454,6 +454,14 @@ def metricOutcome (v : Value) (upper : Option (List UInt8)) (a : Option ActorAns
     | _, _ => none
   (allowed, key)
 
+/-- does `process_command` reach the point where it records the command in the metrics?
+    Its three early returns (value not an array / empty array / first element not a non-null
+    bulk string) reply with a fixed error and record NOTHING. -/
+def counted (v : Value) (upper : Option (List UInt8)) : Bool :=
+  match v with
+  | .array (.bulk (some _) :: _) => upper.isSome
+  | _ => false
+
 /-! ## Connection loop (`handle_connection`)
 
 The limiter is a state machine `actor : σ → ThrottleReq → ActorAnswer × σ` (the real one is
